@@ -109,7 +109,8 @@ def to_atom(v):
     if isinstance(v, (Ref, SInt, SBool, SList, Local, SOpt, HeapSet, PinMap, HeapData, BoundMethod,
                       RefMethod, SymMethod, list, dict, set)):
         raise Unsupported("atom expected, got %r" % (v,))
-    if v is None or isinstance(v, (str, int, bool)) or hasattr(v, "__hash__"):
+    import enum
+    if v is None or isinstance(v, (str, int, bool, type, enum.Enum)):
         return atom_of(v)
     raise Unsupported("atom expected, got %r" % (v,))
 
@@ -128,6 +129,10 @@ def merge(c, a, b):
     if isinstance(a, (int, SInt)) and isinstance(b, (int, SInt)) and not isinstance(a, bool) \
             and not isinstance(b, bool):
         return mkint(ITE(c, raw_int(a), raw_int(b)))
+    from vf.e1 import nsmodel as _NS
+    if isinstance(a, (_NS.NSObj, type(None))) and isinstance(b, (_NS.NSObj, type(None))) and (
+            a is not None or b is not None):
+        return _NS.NSObj(ITE(c, NONE_ID if a is None else a.t, NONE_ID if b is None else b.t))
     if isinstance(a, (Ref, type(None))) and isinstance(b, (Ref, type(None))):
         ca = a.cands if a is not None else frozenset()
         cb = b.cands if b is not None else frozenset()
